@@ -23,7 +23,7 @@ import (
 )
 
 func TestMain(m *testing.M) {
-	vstat.Rule("Request body length from {0,1,thr-1,thr,thr+1,2thr+3,64KiB+-1, up to 2 MiB (8 MiB thorough)} with random bytes; declared length or chunked (in-process: Body with ContentLength -1 and TransferEncoding chunked exactly as net/http's server presents it; real variant: httptest.Server with a raw-socket client that controls chunk sizes, incl. the empty chunked body); MemRequestBodyBytes thr from {1,7,512,32KiB,default}; random method, path+query, 0-6 headers (repeated names, empty values). Retry expression 'IsNetworkError() && Attempts() <= n'; per attempt the handler reads a generated prefix (nothing, some, all) of the body, mutates the request it was handed (Set/Add/Del headers, in-place value edits, URL path/query/user, Method, Host) and fails (502) or succeeds per script. Oracle (round trip against a snapshot taken before the buffer): on every attempt same method, host, URL and header multiset (modulo Content-Length/Transfer-Encoding), ContentLength == len(body), no chunked TransferEncoding, bytes read are the body's prefix from offset 0, a full read yields exactly body then EOF. Non-trivial: body > thr (spilled) and >= 2 attempts and an earlier attempt consumed a non-empty proper prefix or mutated headers/URL.")
+	vstat.Rule("Request body length from {0,1,thr-1,thr,thr+1,2thr+3,64KiB+-1, up to 2 MiB (8 MiB thorough)} with random bytes; declared length or chunked (in-process: Body with ContentLength -1 and TransferEncoding chunked exactly as net/http's server presents it; real variant: httptest.Server with a raw-socket client that controls chunk sizes, incl. the empty chunked body); MemRequestBodyBytes thr from {1,7,512,32KiB,default}; random method, path+query, 0-6 headers (repeated names, empty values). Retry expression 'IsNetworkError() && Attempts() <= n'; per attempt the handler reads a generated prefix (nothing, some, all) of the body, mutates the request it was handed (Set/Add/Del headers, in-place value edits, URL path/query/user, Method, Host) and fails (502) or succeeds per script. Oracle (round trip against a snapshot taken before the buffer): on every attempt same method, host, URL and header multiset (modulo Content-Length/Transfer-Encoding), ContentLength == len(body), no chunked TransferEncoding, bytes read are the body's prefix from offset 0, a full read yields exactly body then EOF. Non-trivial: body > thr (spilled) and >= 2 attempts and an earlier attempt consumed a non-empty proper prefix or mutated headers/URL. In-process cases also include caller-built requests: a seekable body positioned after a preamble, and a body whose declared length was left at 0.")
 	vstat.Main(m.Run)
 }
 
